@@ -1142,6 +1142,8 @@ func TestVerifH2(t *testing.T) {
 		vt.Flush()
 		h2BindResponseLost(t, vt)
 		vt.Flush()
+		h2BindPipelined(t, vt)
+		vt.Flush()
 	}
 	for i := 0; i < nHist; i++ {
 		if only >= 0 && int64(i) != only {
